@@ -497,7 +497,7 @@ def u_fit(root):
                 fx = [(x_, k2) for m_, x_, k2 in tr if m_ == "fix_parameter"]
                 lm = [(x_, k2) for m_, x_, k2 in tr if m_ == "limit_parameter"]
                 out.append(("fixed parameters fixed again at the stored values", z3.And(z3.BoolVal(len(fx) == 1 and as_s(fx[0][0][0]) == "b"), fx[0][0][1].real() == z3.Real("fixed_b")) if len(fx) == 1 else z3.BoolVal(False)))
-                out.append(("limits restored (lower, upper)", z3.And(z3.BoolVal(len(lm) == 1 and as_s(lm[0][0][0]) == "a"), lm[0][0][1].real() == z3.Real("lo_a"), lm[0][0][2].real() == z3.Real("hi_a")) if len(lm) == 1 else z3.BoolVal(False)))
+                out.append(("limits restored (lower, upper)", z3.And(z3.BoolVal(len(lm) == 1 and as_s(lm[0][0][0]) == "a"), lm[0][0][1].real() == z3.Real("lo_a"), lm[0][0][2].real() == z3.Real("hi_a")) if len(lm) == 1 and all(isinstance(v_, VNum) for v_ in lm[0][0][1:3]) else z3.BoolVal(False)))
                 lr = [x_[0] for m_, x_, k2 in tr if m_ == "set:_loaded_result_dict"]
                 out.append(("the stored fit results become the loaded results", z3.BoolVal(len(lr) == 1 and isinstance(lr[0], VDict) and set(lr[0].d) == {"did_fit", "parameter_values", "parameter_errors"})))
                 if cls == "CustomFit":
